@@ -2,22 +2,23 @@
   C04 — the proposal WAIT TABLE with POOLED wait channels: "a request is woken only by its own result".
 
   Model: Node/WaitTable.lean (ProposeInternal / queueRequest's wait function / waitReqHeaders.release of node/node.go and
-  RegisterWithC / Trigger of pkg/wait/wait.go, statement by statement; Trigger in its TWO parts — lookup + delete under the
-  lock, store + signal after the lock is dropped).  The decisions of the code the theorems depend on are REGENERATED
-  (Gen/WaitTable.lean): the stale-signal replacement test of ProposeInternal, the Trigger of the ctx.Done() arm, the Trigger
-  of a failed propose; the statement structure around them is pinned by the generator.
+  RegisterWithC / Trigger of pkg/wait/wait.go, statement by statement).  The decisions of the code the theorems depend on are
+  REGENERATED (Gen/WaitTable.lean): the stale-signal replacement test of ProposeInternal, the Trigger of the ctx.Done() arm,
+  the Trigger of a failed propose, and — since fix 184e1b3 — that Trigger stores the result and signals the channel UNDER the
+  lock (`atomicTrigger`); the statement structure around them is pinned by the generator.
 
   Schedules: ANY list of steps propose / applied / signal / timeout / fail / wake / poolDrop, i.e. any interleaving of any
   number of client goroutines, the apply goroutine, and the pool handing ANY released header to ANY later proposal.
 
-  FINDING (unchanged code).  (a) is FALSE for some schedules of the unchanged code: Trigger drops the lock BEFORE it stores
-  the result and signals (wait.go:108 vs 110-113).  If the waiter of id gives up exactly inside that window — its own
-  Trigger(id, err) finds nothing, it releases the header with an EMPTY channel, the replacement test of the next
-  proposal sees nothing — the late signal wakes whoever got the header: C04_wait_FINDING_trigger_gap.  The exact
-  condition: SAFE PICK — the pool never hands out a header whose channel a half-done Trigger still targets.  (a), (b), (c)
-  hold for every schedule with safe picks (C04_wait_woken_only_by_own_result, …); EVERY pick that is not safe can be continued to a
-  violation (C04_wait_safe_pick_is_exact); and safe picks are implied by "no waiter gives up inside the Trigger window of
-  its own id" (C04_wait_atomic_trigger_suffices), which is what a Trigger that signals under the lock would guarantee.
+  THE CODE (C04_wait_code, C04_wait_woken_only_by_own_result, C04_wait_ends_once, C04_wait_no_registration_leak): (a) own
+  result, (b) at most one wake-up, (c) no registration leak and no panic — for EVERY schedule, no schedule condition left.
+
+  REPAIRED DEFECT (fix 184e1b3; section "before the fix").  Before the fix Trigger dropped the lock BEFORE it stored the
+  result and signalled.  If the waiter of id gave up exactly inside that window — its own Trigger(id, err) finds nothing, it
+  releases the header with an EMPTY channel, the replacement test of the next proposal sees nothing — the late signal woke
+  whoever got the header: C04_wait_FIXED_trigger_gap_before_184e1b3 (a theorem about `Cfg.preFix`); the same schedule on the
+  code as it is now: C04_wait_fixed_schedule_now_correct.  For `Cfg.preFix` the exact condition was SAFE PICK — the pool
+  never hands out a header whose channel a half-done Trigger still targets (C04_wait_prefix_*).
 -/
 import ZanVerif.Node.WaitTableLemmas
 import ZanVerif.Gen.WaitTable
@@ -27,7 +28,8 @@ open Z.WaitTable
 
 /-- the configuration the CURRENT source tree has (regenerated) -/
 def codeCfg : Cfg :=
-  { replaceStale := Gen.waitReplaceStale, timeoutTriggers := Gen.waitTimeoutTriggers, failTriggers := Gen.waitFailTriggers }
+  { replaceStale := Gen.waitReplaceStale, timeoutTriggers := Gen.waitTimeoutTriggers, failTriggers := Gen.waitFailTriggers,
+    atomicTrigger := Gen.waitTriggerSignalsUnderLock }
 
 /-! ### what the trace predicates say -/
 
@@ -50,41 +52,30 @@ theorem C04_wait_endsOnce_meaning (tr : List Ev) :
 example : endsOnce [.woke 1 (.val 7), .gaveUp 0, .proposed 1 0] = true ∧
     endsOnce [.woke 1 (.val 7), .gaveUp 1] = false := by decide
 
-/-! ### (a) woken only by the own result -/
+/-! ### (a) woken only by the own result — every schedule -/
 
-/-- **(a)** With the replacement test and both give-up Triggers in place, for EVERY schedule with safe picks: a waiter that
+/-- **(a)** With the replacement test, both give-up Triggers and the atomic Trigger in place, for EVERY schedule: a waiter that
     wakes with a success result does so only after `applied` of ITS OWN id happened, and the result it reads is exactly the
     result of that `applied` (never earlier than the effect, never another request's result, never the nil of an unwritten
-    slot).  Every prefix of such a schedule is such a schedule, so this holds in every reachable state. -/
+    slot).  Every prefix of a schedule is a schedule, so this holds in every reachable state. -/
 theorem C04_wait_woken_only_by_own_result (cfg : Cfg) (hr : cfg.replaceStale = true) (ht : cfg.timeoutTriggers = true)
-    (hf : cfg.failTriggers = true) (sched : List Step) (hs : admissible safePick cfg init sched = true) :
+    (hf : cfg.failTriggers = true) (ha : cfg.atomicTrigger = true) (sched : List Step) :
     ownResult (run cfg init sched).trace = true := by
-  rw [cfg_eq_code cfg hr ht hf] at hs ⊢
-  exact (inv_run sched init inv_init hs).own
+  rw [cfg_eq_code cfg hr ht hf ha]
+  exact (inv_run_code sched).own
 
-/-- a schedule with two clients, pool reuse after a timeout (the stale signal is replaced) and after a wake-up: admissible,
-    and the second and third request are woken by their own results -/
+/-- a schedule with two clients, pool reuse after a timeout (the stale signal is replaced) and after a wake-up, a give-up
+    right behind the apply of the own id (the signal stays in the pooled channel and is replaced): the second and third
+    request are woken by their own results -/
 example :
-    let sched : List Step := [.propose none, .timeout 0, .propose (some 0), .applied 0 (.val 5), .signal 0,
-      .applied 1 (.val 7), .signal 1, .wake 1, .propose (some 1), .applied 2 (.err 3), .signal 2, .wake 2]
-    admissible safePick Cfg.code init sched = true ∧
-      (run Cfg.code init sched).trace.contains (.woke 1 (.val 7)) = true ∧
+    let sched : List Step := [.propose none, .timeout 0, .propose (some 0), .applied 0 (.val 5),
+      .applied 1 (.val 7), .wake 1, .propose (some 1), .applied 2 (.err 3), .wake 2,
+      .propose (some 1), .applied 3 (.val 9), .timeout 3, .propose (some 1), .applied 4 (.val 2), .wake 4]
+    (run Cfg.code init sched).trace.contains (.woke 1 (.val 7)) = true ∧
       (run Cfg.code init sched).trace.contains (.woke 2 (.err 3)) = true ∧
+      (run Cfg.code init sched).trace.contains (.woke 4 (.val 2)) = true ∧
+      (run Cfg.code init sched).trace.contains (.gaveUp 3) = true ∧
       ownResult (run Cfg.code init sched).trace = true := by decide
-
-/-- **(a) under the simpler condition**: a schedule in which no waiter gives up between the two parts of the apply
-    path's Trigger of ITS OWN id (what a Trigger that stores and signals under the lock would guarantee: the waiter's own
-    Trigger(id, err) would wait for the lock) has only safe picks -/
-theorem C04_wait_atomic_trigger_suffices (cfg : Cfg) (hr : cfg.replaceStale = true) (ht : cfg.timeoutTriggers = true)
-    (hf : cfg.failTriggers = true) (sched : List Step) (hs : admissible noGiveUpInGap cfg init sched = true) :
-    admissible safePick cfg init sched = true ∧ ownResult (run cfg init sched).trace = true := by
-  rw [cfg_eq_code cfg hr ht hf] at hs ⊢
-  have h := gapfree_admissible sched init inv_init live_init hs
-  exact ⟨h, (inv_run sched init inv_init h).own⟩
-
-example : admissible noGiveUpInGap Cfg.code init
-    [.propose none, .applied 0 (.val 5), .signal 0, .timeout 0, .propose (some 0), .applied 1 (.val 7), .signal 1, .wake 1] = true := by
-  decide
 
 /-! ### (b) at most one wake-up per request -/
 
@@ -92,24 +83,32 @@ example : admissible noGiveUpInGap Cfg.code init
 theorem C04_wait_ends_once (cfg : Cfg) (sched : List Step) : endsOnce (run cfg init sched).trace = true :=
   (invB_run cfg sched init invB_init).once
 
-example : (run Cfg.code init [.propose none, .applied 0 (.val 5), .signal 0, .wake 0, .wake 0, .timeout 0]).trace =
+example : (run Cfg.code init [.propose none, .applied 0 (.val 5), .wake 0, .wake 0, .timeout 0]).trace =
     [.woke 0 (.val 5), .applied 0 (.val 5), .proposed 0 0] := by decide
 
-/-! ### (c) no registration outlives its request; no panic -/
+/-! ### (c) no registration outlives its request; no panic — every schedule -/
 
-/-- **(c)** under the conditions of (a): a request that ended (woke or gave up) is no longer registered; more: every
-    registration belongs to a request that is still waiting, on the very channel it is registered with; and neither
-    `log.Panicf("done chan is full")` nor `log.Panicf("dup id")` can fire -/
+/-- **(c)** under the conditions of (a), for EVERY schedule: a request that ended (woke or gave up) is no longer registered;
+    more: every registration belongs to a request that is still waiting, on the very channel it is registered with; no
+    Trigger is ever half-done; and neither `log.Panicf("done chan is full")` nor `log.Panicf("dup id")` can fire -/
 theorem C04_wait_no_registration_leak (cfg : Cfg) (hr : cfg.replaceStale = true) (ht : cfg.timeoutTriggers = true)
-    (hf : cfg.failTriggers = true) (sched : List Step) (hs : admissible safePick cfg init sched = true) :
+    (hf : cfg.failTriggers = true) (ha : cfg.atomicTrigger = true) (sched : List Step) :
     let s := run cfg init sched
     (∀ id, s.trace.any (finishes id) = true → s.tab id = none) ∧
     (∀ id ch, s.tab id = some ch → s.waiter id = some ch) ∧
+    (∀ id, s.gap id = none) ∧
     s.panicked = false := by
-  rw [cfg_eq_code cfg hr ht hf] at hs ⊢
-  have h := inv_run sched init inv_init hs
+  rw [cfg_eq_code cfg hr ht hf ha]
+  have h := inv_run_code sched
   have hb := invB_run Cfg.code sched init invB_init
-  refine ⟨?_, h.tabW, h.np⟩
+  have hg : NoGap (run Cfg.code init sched) := by
+    have : ∀ (sched : List Step) (s : State), NoGap s → NoGap (run Cfg.code s sched) := by
+      intro sched
+      induction sched with
+      | nil => intro s hs; exact hs
+      | cons st rest ih => intro s hs; exact ih _ (nogap_step rfl hs st)
+    exact this sched init nogap_init
+  refine ⟨?_, h.tabW, hg, h.np⟩
   intro id hfin
   cases ht : (run Cfg.code init sched).tab id with
   | none => rfl
@@ -120,44 +119,45 @@ theorem C04_wait_no_registration_leak (cfg : Cfg) (hr : cfg.replaceStale = true)
 
 example :
     let s := run Cfg.code init [.propose none, .propose none, .timeout 0, .applied 1 (.val 7)]
-    s.trace.any (finishes 0) = true ∧ s.tab 0 = none ∧ s.tab 1 = none ∧ s.gap 1 = some (1, .val 7) := by decide
+    s.trace.any (finishes 0) = true ∧ s.tab 0 = none ∧ s.tab 1 = none ∧ s.slot 1 = some (.val 7) ∧ s.full 1 = true := by
+  decide
 
 /-! ### the theorems over the REGENERATED configuration of the current source tree -/
 
-/-- the current tree has the replacement test and both give-up Triggers (this is the line that a change of
-    ProposeInternal / queueRequest breaks) -/
+/-- the current tree has the replacement test, both give-up Triggers and the Trigger that signals under the lock (this is the
+    line that a change of ProposeInternal / queueRequest / wait.Trigger breaks) -/
 theorem C04_wait_code_tie : codeCfg = Cfg.code := by decide
 
-/-- (a), (b), (c) for the configuration regenerated from the current source tree -/
-theorem C04_wait_code (sched : List Step) (hs : admissible safePick codeCfg init sched = true) :
+/-- (a), (b), (c) for the configuration regenerated from the current source tree — EVERY schedule, no condition -/
+theorem C04_wait_code (sched : List Step) :
     let s := run codeCfg init sched
     ownResult s.trace = true ∧ endsOnce s.trace = true ∧
-    (∀ id, s.trace.any (finishes id) = true → s.tab id = none) ∧ s.panicked = false := by
+    (∀ id, s.trace.any (finishes id) = true → s.tab id = none) ∧
+    (∀ id ch, s.tab id = some ch → s.waiter id = some ch) ∧ s.panicked = false := by
   have hr : codeCfg.replaceStale = true := by decide
   have ht : codeCfg.timeoutTriggers = true := by decide
   have hf : codeCfg.failTriggers = true := by decide
-  have hc := C04_wait_no_registration_leak codeCfg hr ht hf sched hs
-  exact ⟨C04_wait_woken_only_by_own_result codeCfg hr ht hf sched hs, C04_wait_ends_once codeCfg sched, hc.1, hc.2.2⟩
+  have ha : codeCfg.atomicTrigger = true := by decide
+  have hc := C04_wait_no_registration_leak codeCfg hr ht hf ha sched
+  exact ⟨C04_wait_woken_only_by_own_result codeCfg hr ht hf ha sched, C04_wait_ends_once codeCfg sched, hc.1, hc.2.1, hc.2.2.2⟩
 
-example : admissible safePick codeCfg init [.propose none, .timeout 0, .propose (some 0), .applied 1 (.val 7), .signal 1, .wake 1] = true := by
-  decide
+example : (run codeCfg init [.propose none, .timeout 0, .propose (some 0), .applied 1 (.val 7), .wake 1]).trace =
+    [.woke 1 (.val 7), .applied 1 (.val 7), .proposed 1 1, .gaveUp 0, .proposed 0 0] := by decide
 
 /-- the structure the model was written against, as pinned by the generator (each of these is an anchor failure of the
-    generator when it changes; the last one is the window of the finding) -/
+    generator when it changes) -/
 theorem C04_wait_code_structure :
     Gen.waitRegisterBeforePropose = true ∧ Gen.waitWakeReadsOwnSlotThenReleases = true ∧ Gen.waitReleaseKeepsDone = true ∧
-    Gen.waitChanCap = 1 ∧ Gen.waitRegisterFreshSlot = true ∧ Gen.waitTriggerDeletesStoresSignals = true ∧
-    Gen.waitTriggerSignalsUnderLock = false := by decide
+    Gen.waitChanCap = 1 ∧ Gen.waitRegisterFreshSlot = true ∧ Gen.waitTriggerDeletesStoresSignals = true := by decide
 
-/-! ### witnesses: the two seeded variants, and the finding on the unchanged code -/
+/-! ### witnesses: the two seeded variants (on the code with the atomic Trigger) -/
 
 /-- **seeded variant (i), C04-m1** — WITHOUT the stale-signal replacement test: a request times out (its own Trigger leaves a
     signal in the channel), the header is pooled, the next proposal gets it and is woken at once, with the nil of its
-    unwritten slot = success, although nothing was applied.  The schedule even keeps every Trigger atomic. -/
+    unwritten slot = success, although nothing was applied. -/
 theorem C04_wait_witness_no_replacement_test :
     let cfg : Cfg := { Cfg.code with replaceStale := false }
     let sched : List Step := [.propose none, .timeout 0, .propose (some 0), .wake 1]
-    admissible noGiveUpInGap cfg init sched = true ∧ admissible safePick cfg init sched = true ∧
     (run cfg init sched).trace = [.woke 1 Res.nil, .proposed 1 0, .gaveUp 0, .proposed 0 0] ∧
     ownResult (run cfg init sched).trace = false := by decide
 
@@ -166,43 +166,76 @@ theorem C04_wait_witness_no_replacement_test :
     before its own entry is applied — and the registration of the request that gave up is still there (leak). -/
 theorem C04_wait_witness_no_trigger_on_timeout :
     let cfg : Cfg := { Cfg.code with timeoutTriggers := false }
-    let sched : List Step := [.propose none, .timeout 0, .propose (some 0), .applied 0 (.val 7), .signal 0, .wake 1]
-    admissible noGiveUpInGap cfg init sched = true ∧ admissible safePick cfg init sched = true ∧
+    let sched : List Step := [.propose none, .timeout 0, .propose (some 0), .applied 0 (.val 7), .wake 1]
     (run cfg init sched).trace =
       [.woke 1 Res.nil, .applied 0 (.val 7), .proposed 1 0, .gaveUp 0, .proposed 0 0] ∧
     ownResult (run cfg init sched).trace = false ∧
     (run cfg init [.propose none, .timeout 0]).tab 0 = some 0 := by decide
 
-/-- **FINDING, unchanged code** — Trigger is not atomic: request 0 is applied, the apply path's Trigger(0, r) has deleted
-    the registration and dropped the lock (wait.go:105-108) but has not signalled yet; the waiter of 0 times out: its own
+/-! ### before the fix 184e1b3: `Cfg.preFix` = the code whose Trigger dropped the lock between delete and store + signal -/
+
+/-- **REPAIRED DEFECT (fixed by 184e1b3)** — with the NON-atomic Trigger: request 0 is applied, the apply path's Trigger(0, r)
+    has deleted the registration and dropped the lock but has not signalled yet; the waiter of 0 times out: its own
     Trigger(0, err) finds nothing, it releases the header with an EMPTY channel; request 1 gets that header (nothing to
     replace) and registers the channel; now part 2 of Trigger(0, r) signals the channel: request 1 wakes, reads the nil of
-    its unwritten slot and reports SUCCESS although it was never applied.  Its registration stays behind (leak), and when
-    entry 1 is applied later the signal goes into the pooled channel of whoever is next. -/
-theorem C04_wait_FINDING_trigger_gap :
+    its unwritten slot and reports SUCCESS although it was never applied.  Its registration stays behind (leak). -/
+theorem C04_wait_FIXED_trigger_gap_before_184e1b3 :
     let sched : List Step := [.propose none, .applied 0 (.val 7), .timeout 0, .propose (some 0), .signal 0, .wake 1]
-    (run Cfg.code init sched).trace =
+    (run Cfg.preFix init sched).trace =
       [.woke 1 Res.nil, .proposed 1 0, .gaveUp 0, .applied 0 (.val 7), .proposed 0 0] ∧
-    ownResult (run Cfg.code init sched).trace = false ∧
-    (run Cfg.code init sched).tab 1 = some 0 ∧ (run Cfg.code init sched).panicked = false ∧
+    ownResult (run Cfg.preFix init sched).trace = false ∧
+    (run Cfg.preFix init sched).tab 1 = some 0 ∧ (run Cfg.preFix init sched).panicked = false ∧
     -- the schedule breaks both schedule conditions, at `timeout 0` resp. at the second `propose`
-    admissible noGiveUpInGap Cfg.code init sched = false ∧ admissible safePick Cfg.code init sched = false ∧
-    admissible safePick Cfg.code init (sched.take 3) = true := by decide
+    admissible noGiveUpInGap Cfg.preFix init sched = false ∧ admissible safePick Cfg.preFix init sched = false ∧
+    admissible safePick Cfg.preFix init (sched.take 3) = true := by decide
 
-/-- **the condition is exact**: in EVERY state the unchanged code reaches through safe picks, a pick that is not safe — the pool
-    hands out header `c` while a half-done Trigger targets its channel — can be continued by two steps (that Trigger's
+/-- **the same schedule on the code as it is now**: `applied 0` stores and signals at once; the waiter of 0 that gives up
+    right behind it finds its id unregistered but pools a channel that HOLDS the signal; request 1 gets the header, the
+    replacement test gives it a NEW channel; `signal 0` has nothing to do; request 1 stays blocked (no wake-up) until its
+    own entry is applied -/
+theorem C04_wait_fixed_schedule_now_correct :
+    let sched : List Step := [.propose none, .applied 0 (.val 7), .timeout 0, .propose (some 0), .signal 0, .wake 1]
+    (run Cfg.code init sched).trace = [.proposed 1 1, .gaveUp 0, .applied 0 (.val 7), .proposed 0 0] ∧
+    (run Cfg.code init sched).waiter 1 = some 1 ∧ (run Cfg.code init sched).full 1 = false ∧
+    (run Cfg.code init (sched ++ [.applied 1 (.val 3), .wake 1])).trace =
+      [.woke 1 (.val 3), .applied 1 (.val 3), .proposed 1 1, .gaveUp 0, .applied 0 (.val 7), .proposed 0 0] := by decide
+
+/-- before the fix, (a) and (c) held for every schedule with SAFE PICKS only -/
+theorem C04_wait_prefix_safe_pick_suffices (sched : List Step) (hs : admissible safePick Cfg.preFix init sched = true) :
+    let s := run Cfg.preFix init sched
+    ownResult s.trace = true ∧ (∀ id ch, s.tab id = some ch → s.waiter id = some ch) ∧ s.panicked = false := by
+  have h := inv_run (cfg := Cfg.preFix) rfl rfl rfl sched init inv_init hs
+  exact ⟨h.own, h.tabW, h.np⟩
+
+example : admissible safePick Cfg.preFix init
+    [.propose none, .timeout 0, .propose (some 0), .applied 1 (.val 7), .signal 1, .wake 1] = true := by decide
+
+/-- before the fix: a schedule in which no waiter gives up between the two parts of the apply path's Trigger of ITS OWN id
+    has only safe picks (this is what the fix now guarantees for every schedule: the waiter's own Trigger waits for the lock) -/
+theorem C04_wait_prefix_atomic_schedule_suffices (sched : List Step)
+    (hs : admissible noGiveUpInGap Cfg.preFix init sched = true) :
+    admissible safePick Cfg.preFix init sched = true ∧ ownResult (run Cfg.preFix init sched).trace = true := by
+  have h := gapfree_admissible sched init inv_init live_init hs
+  exact ⟨h, (inv_run (cfg := Cfg.preFix) rfl rfl rfl sched init inv_init h).own⟩
+
+example : admissible noGiveUpInGap Cfg.preFix init
+    [.propose none, .applied 0 (.val 5), .signal 0, .timeout 0, .propose (some 0), .applied 1 (.val 7), .signal 1, .wake 1] = true := by
+  decide
+
+/-- before the fix **the condition was exact**: in EVERY state reached through safe picks, a pick that is not safe — the pool
+    hands out header `c` while a half-done Trigger targets its channel — could be continued by two steps (that Trigger's
     signal, the new waiter's wake-up) to a wake-up that did not read the own result -/
-theorem C04_wait_safe_pick_is_exact (sched : List Step) (hs : admissible safePick Cfg.code init sched = true) (c : Ch)
-    (hu : safePick (run Cfg.code init sched) (.propose (some c)) = false) :
-    ∃ id, ownResult (run Cfg.code init
-      (sched ++ [.propose (some c), .signal id, .wake (run Cfg.code init sched).nextId])).trace = false := by
-  obtain ⟨id, h⟩ := bad_pick_breaks (inv_run sched init inv_init hs) c hu
+theorem C04_wait_prefix_safe_pick_is_exact (sched : List Step) (hs : admissible safePick Cfg.preFix init sched = true) (c : Ch)
+    (hu : safePick (run Cfg.preFix init sched) (.propose (some c)) = false) :
+    ∃ id, ownResult (run Cfg.preFix init
+      (sched ++ [.propose (some c), .signal id, .wake (run Cfg.preFix init sched).nextId])).trace = false := by
+  obtain ⟨id, h⟩ := bad_pick_breaks (inv_run (cfg := Cfg.preFix) rfl rfl rfl sched init inv_init hs) c hu
   refine ⟨id, ?_⟩
   simpa only [run, List.foldl_append] using h
 
 example :
     let sched : List Step := [.propose none, .applied 0 (.val 7), .timeout 0]
-    admissible safePick Cfg.code init sched = true ∧ safePick (run Cfg.code init sched) (.propose (some 0)) = false := by
+    admissible safePick Cfg.preFix init sched = true ∧ safePick (run Cfg.preFix init sched) (.propose (some 0)) = false := by
   decide
 
 end Z.Props.C04Wait
